@@ -260,6 +260,13 @@ SeqByz2(o, uc) ==
              \o One(HonestShred(S(5, 1, TRUE, "D"), p[4], "L"), uc)
              \o One(HonestShred(S(5, 1, TRUE, "C"), p[5], "L"), TRUE)]
 
+\* ... a last marker below a slice of which n shreds were already accepted (partially received or reconstructed)
+SeqByz3(n, o, uc) ==
+  LET p == Perm(o) IN
+  [name |-> "last-below-accepted", scn |-> "byz", m |-> "conflict", f |-> 0, n |-> n, order |-> o,
+   steps |-> Hon(S(5, 1, FALSE, "C"), SubSeq(p, 1, n)) \o One(HonestShred(S(5, 0, TRUE, "A"), p[n + 1], "L"), uc)
+             \o One(HonestShred(S(5, 1, FALSE, "C"), p[n + 2], "L"), TRUE)]
+
 ConflictPairs == {<<S(5, 0, FALSE, "A"), S(5, 0, FALSE, "B")>>, <<S(5, 0, FALSE, "B"), S(5, 0, FALSE, "A")>>,
                   <<S(5, 0, FALSE, "A"), S(5, 0, TRUE, "A")>>, <<S(5, 0, TRUE, "A"), S(5, 0, FALSE, "A")>>}
 RelayKinds == {"tag", "sig-bytes", "sig-key", "tag+sig-bytes", "payload", "islast", "index"}
@@ -269,6 +276,7 @@ Seqs ==
   \cup {SeqCorrect("tag", f, n, o, FALSE) : f \in SeqFs, n \in SeqNs, o \in SeqOrders}
   \cup {SeqByz(pr[1], pr[2], n, o, uc) : pr \in ConflictPairs, n \in (SeqNs \cup {Data, Data + 1}) \ {0}, o \in SeqOrders, uc \in BOOLEAN}
   \cup {SeqByz2(o, uc) : o \in SeqOrders, uc \in BOOLEAN}
+  \cup {SeqByz3(n, o, uc) : n \in (SeqNs \cup {Data, Data + 1}) \ {0}, o \in SeqOrders, uc \in BOOLEAN}
 
 RECURSIVE RunFrom(_, _, _)
 RunFrom(bs, steps, k) ==
